@@ -6,6 +6,7 @@ from lib.props.c08 import parse_view
 LEVEL = "proof"
 MODEL_FILES = ["Model/View.v", "Model/ShortestM.v", "Model/AlgoIO.v"]
 THEOREMS = []
+EXTRA_PROPS = ["C10b"]
 STREAMS = [("C10", 2500, 100000)]
 SHARD = 5000
 RULE = ("sparse random weighted multigraphs on 1..8 nodes, costs 0..9 (zero-cost edges, loops, parallel edges, cycles, "
